@@ -770,6 +770,28 @@ Proof.
   pose proof (expired_gone E s id flush n rd tadd T Hexp Hrd Hadd Hres g Hg). lia.
 Qed.
 
+(* C11 + C17 together: once a FlushAll / Close has succeeded, every event accepted so far has left the gate in exactly one
+   composite (returned, sent or — only for the permitted reasons — discarded) and nothing is withheld any more *)
+Lemma adds_app l k : adds (l ++ k) = adds l ++ adds k.
+Proof.
+  induction l as [|a t IH]; [reflexivity|]. cbn [app adds]. destruct a as [rd|id f n tadd|]; try exact IH.
+  destruct (N.eqb id 0); [exact IH|]. cbn [app]. f_equal. exact IH.
+Qed.
+
+Theorem handed_over_exactly_once_after_flush E l e : NoDup (adds l) -> In e (accepted (arun E l)) ->
+  snd (astep E (arun E l) AFlushAll) = RNil ->
+  let s' := arun E (l ++ [AFlushAll]) in groups s' = [] /\ cnt e (emitted (log s')) = 1%nat.
+Proof.
+  intros Hnd Hin Hok s'.
+  assert (Hs' : s' = fst (astep E (arun E l) AFlushAll)) by (unfold s', arun; rewrite fold_left_app; reflexivity).
+  destruct (flushall_empties E (arun E l) Hok) as [Hg _]. rewrite <- Hs' in Hg. split; [exact Hg|].
+  assert (Hacc : accepted s' = accepted (arun E l)).
+  { rewrite Hs'. cbn [astep]. destruct (groups (arun E l)) as [|g t]; [reflexivity|]. destruct (broker_set E); [|reflexivity].
+    unfold flush_list. destruct (walk E (fun _ _ => true) (out (arun E l)) (g :: t)) as [[k o'] ok]. reflexivity. }
+  pose proof (exactly_once E (l ++ [AFlushAll]) e) as Hx. fold s' in Hx. rewrite adds_app in Hx. cbn [adds] in Hx. rewrite app_nil_r in Hx.
+  rewrite Hacc in Hx. specialize (Hx Hnd Hin). unfold everywhere in Hx. rewrite Hg in Hx. cbn [all_of map concat] in Hx. rewrite app_nil_r in Hx. exact Hx.
+Qed.
+
 (* "oldest first" = list order: when the clock readings used to open groups never decrease, the groups are listed by
    non-decreasing expiry, so the walk emits expired groups oldest expiry first. *)
 Fixpoint add_times (l : list atom) : list Z :=
